@@ -184,6 +184,7 @@ type adminOp struct {
 	// target and of an RW replica as they were on disk then
 	verifyWasWO bool
 	verifyPre   *chainPair
+	httpIdx0    int // len(cluster.httpLog) when the request was sent
 }
 
 type clRun struct {
@@ -1397,6 +1398,15 @@ func (cr *clRun) judgeIO(o *ioOp) {
 				}
 				if !strings.Contains(clause, "/") {
 					for _, rn := range cr.c.reps {
+						if rv := cr.revertSkipped(rn.addr, bad); rv != nil {
+							clause += "/rw-replica-not-reverted"
+							why += fmt.Sprintf(" [%s is listed RW after a successful volume revert but the revert call was sent only to %v]", rn.name, sortedNames(rv.sent))
+							break
+						}
+					}
+				}
+				if !strings.Contains(clause, "/") {
+					for _, rn := range cr.c.reps {
 						if w := cr.punchedThenRebuilt(rn.addr, bad); w != nil {
 							clause += "/punched-snapshot-not-resynced"
 							why += cr.d28Note(w, rn.name)
@@ -1619,6 +1629,26 @@ func (cr *clRun) d31Note(w, f *ioOp, el string) string {
 	return fmt.Sprintf(" [write %d was acknowledged; a later cold-start election picked %s, which does not hold it but had applied write %d, which failed towards the initiator, and counted it]", w.idx, el, f.idx)
 }
 
+// revertSkipped recognises known finding D32: replica addr is listed RW after a volume revert that
+// reported success, but the controller never sent it the revert call - Controller.Revert picks the
+// replicas to revert BEFORE it takes the controller lock (clientsAndSnapshot), and a replica that is
+// added, rebuilt and promoted in between serves as RW with the state from before the revert.
+func (cr *clRun) revertSkipped(addr string, s int64) *revertRec {
+	if s < 0 || s >= int64(len(cr.m.val)) {
+		return nil
+	}
+	for i := len(cr.reverts) - 1; i >= 0; i-- {
+		rv := cr.reverts[i]
+		if rv.lost || rv.sent == nil || int(s) >= len(rv.post) || int(s) >= len(rv.pre) {
+			continue
+		}
+		if rv.holders[addr] && !rv.sent[addr] && rv.pre[s] != rv.post[s] && cr.m.val[s] == rv.post[s] {
+			return rv
+		}
+	}
+	return nil
+}
+
 func (cr *clRun) d26Note(w *ioOp) string {
 	return fmt.Sprintf(" [write %d was acknowledged with %d holder(s) among %d attached replicas, RF=%d; a cold start followed]", w.idx, w.holdersN, w.attachedN, cr.c.rf)
 }
@@ -1629,6 +1659,7 @@ func (cr *clRun) d25Note(w *ioOp) string {
 
 // revertRec: a successful volume revert, who took part, and the register before/after.
 type revertRec struct {
+	sent      map[string]bool // replicas the controller sent the revert call to
 	holders   map[string]bool
 	pre, post []uint64
 	preWild   []bool
@@ -1923,6 +1954,9 @@ func (cr *clRun) settle() {
 				} else if w, f, e := cr.electedCountingFailedWrite(bad); w != nil {
 					clause += "/elected-replica-counted-failed-write"
 					why += cr.d31Note(w, f, e)
+				} else if rv := cr.revertSkipped(rn.addr, bad); rv != nil {
+					clause += "/rw-replica-not-reverted"
+					why += fmt.Sprintf(" [%s is listed RW after a successful volume revert but the revert call was sent only to %v]", rn.name, sortedNames(rv.sent))
 				} else if w := cr.punchedThenRebuilt(rn.addr, bad); w != nil {
 					clause += "/punched-snapshot-not-resynced"
 					why += cr.d28Note(w, rn.name)
